@@ -29,7 +29,56 @@ def plan(tier):
     return {"n": 1500, "budget_s": 170, "case_timeout": 120}
 
 
+def _ref_tree_case(rng: Rng, tier: str):
+    """Archive written by the reference writer from a small tree whose entries are listed in a seeded order (directory
+    entries may come after their contents, siblings interleaved), partitioned into seeded folders."""
+    import stat as _stat
+
+    from props import c06
+    from simkit import tree as _tree
+
+    r = rng.sub("reftree")
+    for attempt in range(30):
+        t = _tree.gen_tree(r, maxdepth=3, nmax=8, name_style=r.pick(["ascii", "bmp"]), links=False, block=32768, maxlen=1500)
+        # the quantifier's side condition: no name is a proper string prefix of another except along '/' boundaries
+        if rsess._names_ok(["top"] + ["top/" + e["path"] for e in t]):
+            break
+    else:
+        t = []
+    order = list(t)
+    mode = r.pick(["natural", "dirs_last", "shuffled"])
+    if mode == "dirs_last":
+        order = [e for e in t if e["kind"] != "dir"] + [e for e in t if e["kind"] == "dir"]
+    elif mode == "shuffled":
+        r.shuffle(order)
+    members = []
+    for e in order:
+        if e["kind"] == "dir":
+            members.append({"name": "top/" + e["path"], "kind": "dir", "mtime": None, "ctime": None, "atime": None, "attrs": 0x10 | 0x8000 | ((_stat.S_IFDIR | 0o755) << 16)})
+        else:
+            members.append({"name": "top/" + e["path"], "kind": "file", "content": e["content"], "mtime": None, "ctime": None, "atime": None, "attrs": 0x20})
+    members.insert(r.randint(0, len(members)), {"name": "top", "kind": "dir", "mtime": None, "ctime": None, "atime": None, "attrs": 0x10})
+    data_idx = [k for k, m in enumerate(members) if m["kind"] == "file" and m["content"]["len"] > 0]
+    folders = []
+    k = 0
+    while k < len(data_idx):
+        take = r.randint(1, max(1, len(data_idx) - k))
+        folders.append({"members": data_idx[k:k + take], "chain": [dict(f) for f in r.pick(c06.CHAINS[:7])]})
+        k += take
+    layout = {"folders": folders, "crc": "substream", "header": r.pick(["raw", "lzma"]), "packcrc": False, "packpos": 0, "omit_nums": r.chance(0.5), "dummy": 0, "dummy_tail": 0,
+              "emptyfile_vector_always": False, "names_first": True, "password": None, "iv_seed": 1, "no_substreams": False, "header_crc": True}
+    names = [m["name"] for m in members]
+    stub = [rw.Mem(n, b"", "file", None, None) for n in names]
+    calls = []
+    for _ in range(r.randint(1, 3)):
+        calls.append({"op": "extract", "targets": rsess.gen_targets(r, stub), "recursive": r.chance(0.6), "as": r.pick(["list", "set"]), "sink": r.pick(["factory", "path"]), "fresh": r.chance(0.5)})
+    return {"ref": {"members": members, "layout": layout}, "calls": calls, "open": r.pick(["path", "stream"]),
+            "read": {"block": r.pick([16, 4096, 1048576]), "chunk": r.pick([17, 4096, 128000000]), "bufsize": 8192}}
+
+
 def gen_case(rng: Rng, i: int, tier: str):
+    if rng.sub("kind").chance(0.2):
+        return _ref_tree_case(rng, tier)
     r = rng.sub("seq")
     arc = rsess.gen_archive(rng.sub("arc"), tier, want_dirs=True if r.chance(0.5) else None, want_multi=True if r.chance(0.5) else None)
     names = _recipe_names(arc)
@@ -44,7 +93,7 @@ def gen_case(rng: Rng, i: int, tier: str):
 
 def run_case(case):
     res = {"evals": 0, "violations": [], "faults": {}, "probes": {}, "rejected": {}, "classes": {}, "sigs": [], "sim_steps": 0, "extra": {}}
-    built = rsess.build_archive(case["archive"])
+    built = rsess.build_from_ref(case["ref"]) if "ref" in case else rsess.build_archive(case["archive"])
     if built.rejected or built.error is not None or built.image is None or not built.model:
         res["extra"]["archive_skipped"] = 1
         res["digest"] = digest_of(["skipped"])
@@ -57,7 +106,8 @@ def run_case(case):
     os.makedirs(scratch)
     outdir = os.path.join(scratch, "out")
     cls = {"open": case["open"], "multi": built.nfolders > 1, "encrypted": built.password is not None}
-    cls.update(gen.dep_flags([s.get("chain") for s in case["archive"]["sessions"]], case["read"]["chunk"], case["read"]["block"]))
+    cls.update(case_class(case))
+    cls["source"] = "ref7z" if "ref" in case else "py7zr"
     log = []
 
     def viol(oracle, site, detail, **extra):
@@ -166,7 +216,7 @@ def shrink_candidates(case):
                 c = copy.deepcopy(case)
                 del c["calls"][ci]["targets"][j]
                 yield c
-    arc = case["archive"]
+    arc = case.get("archive") or {"sessions": []}
     if len(arc["sessions"]) > 1:
         c = copy.deepcopy(case)
         c["archive"]["sessions"].pop()
@@ -188,4 +238,6 @@ def shrink_candidates(case):
 
 
 def case_class(case):
+    if "ref" in case:
+        return gen.dep_flags([[{"id": f["id"]} for f in fo["chain"]] for fo in case["ref"]["layout"]["folders"]], case["read"]["chunk"], case["read"]["block"])
     return gen.dep_flags([s.get("chain") for s in case["archive"]["sessions"]], case["read"]["chunk"], case["read"]["block"])
